@@ -171,6 +171,11 @@ def run(ctx):
             spec = tmodel.gen_spec(rng, extent=(0.45, 0.6))
             spec['new_path'] = (i % 18 == 4)
             ctx.count('extended atmosphere')
+        if i % 9 == 7:
+            # every run: a star smaller than its planet (a giant planet transiting a white dwarf): the documented ratio
+            # of areas then exceeds one, and is still the integral
+            spec['star_radius'] = spec['planet_radius'] * 0.10049 * rng.uniform(0.1, 0.9)     # Rjup/Rsun = 0.10049
+            ctx.count('star smaller than the planet')
         try:
             model = tmodel.build(spec)
             o = observe(model)
